@@ -170,13 +170,22 @@ def flags_before_add(entry):
 COUPLING_KINDS = ("float", "int", "list", "list2d", "ndarray")
 
 
-def coupling_initial(kind):
-    return {"float": 1.0, "int": 1, "list": [1.0, 2.0], "list2d": [[1.0, 2.0], [3.0, 4.0]], "ndarray": [1.0, 2.0]}[kind]
+def coupling_initial(kind, shape=(2, 2)):
+    """Start value: a scalar, a vector of shape[0] entries, or shape[0] rows of shape[1] entries."""
+    rows, cols = shape
+    if kind == "float":
+        return 1.0
+    if kind == "int":
+        return 1
+    if kind in ("list", "ndarray"):
+        return [float(k + 1) for k in range(rows)]
+    return [[float(10 * r + c + 1) for c in range(cols)] for r in range(rows)]
 
 
 def coupling_step(kind, factor, tol):
-    """Change applied by one coupled interaction: ``factor`` tolerances (0 = none); whole numbers for the int kind.
-    |factor| is one of 0, 0.25, 0.5 (clearly converged for every kind) or >= 2 (clearly not)."""
+    """Change applied to an entry by one coupled interaction: ``factor`` tolerances (0 = none); whole numbers for the
+    int kind.  |factor| is one of 0, 0.3, 0.6, 3, 8: with up to 6 entries moving together, no norm of the change lies
+    within 4 % of the tolerance (0.6*sqrt(3) = 1.04 is the closest)."""
     if kind == "int":
         if abs(factor) < 1:
             return 0
@@ -184,20 +193,46 @@ def coupling_step(kind, factor, tol):
     return factor * tol
 
 
-def coupling_advance(kind, value, d):
+def coupling_advance(kind, value, d, spread="all"):
+    """Value after one coupled interaction.  spread: 'one' = a single entry moves by d; 'all' = every entry (alternating
+    sign); for 2-D also 'rows' = one entry of every row, 'cols' = every entry of the first row."""
     if kind in ("float", "int"):
         return value + d
     if kind in ("list", "ndarray"):
-        return [value[0] + d, value[1] - d]
-    return [[value[0][0] + d, value[0][1]], [value[1][0], value[1][1] - d / 2.0]]
+        if spread == "one":
+            return [value[0] + d] + list(value[1:])
+        return [v + (d if k % 2 == 0 else -d) for k, v in enumerate(value)]
+    new = [list(row) for row in value]
+    for r, row in enumerate(new):
+        for c in range(len(row)):
+            moves = {"one": r == 0 and c == 0, "rows": c == 0, "cols": r == 0}.get(spread, True)
+            if moves:
+                row[c] += d if (r + c) % 2 == 0 else -d
+    return new
+
+
+def _l2(a, b):
+    return sum((x - y) ** 2 for x, y in zip(a, b)) ** 0.5
 
 
 def coupling_eps(kind, old, new):
     if kind in ("float", "int"):
         return abs(new - old)
     if kind in ("list", "ndarray"):
-        return sum((a - b) ** 2 for a, b in zip(old, new)) ** 0.5
-    return max(sum((a - b) ** 2 for a, b in zip(ro, rn)) ** 0.5 for ro, rn in zip(old, new))
+        return _l2(old, new)
+    return max(_l2(ro, rn) for ro, rn in zip(old, new))
+
+
+def coupling_other_norms(kind, old, new):
+    """Classification only: what the other plausible combinations of the entry changes would give
+    (largest entry change; for 2-D also the L2 combination of the row norms)."""
+    if kind in ("list", "ndarray"):
+        return {"max-entry": max(abs(x - y) for x, y in zip(old, new))}
+    if kind == "list2d":
+        rows = [_l2(ro, rn) for ro, rn in zip(old, new)]
+        return {"l2-of-rows": sum(x * x for x in rows) ** 0.5,
+                "max-entry": max(abs(x - y) for ro, rn in zip(old, new) for x, y in zip(ro, rn))}
+    return {}
 
 
 def select(stack, event, deferred_names=(), deferred_cycle=0, cycle=0, excluded=()):
@@ -246,7 +281,7 @@ class Scheduler:
         self.events = []
         self.state = {"cycle": 0, "node": 0}
         self.script_pos = {i["name"]: 0 for i in self.stack}
-        self.values = {i["name"]: coupling_initial(i.get("valueKind", "float")) for i in self.stack}
+        self.values = {i["name"]: coupling_initial(i.get("valueKind", "float"), i.get("shape", (2, 2))) for i in self.stack}
         self.notes = set()  # what the coupling sequences exercised (classification only)
         self.cycles_run = []  # cycles that ran to their end
         self.left_open = set()
@@ -314,10 +349,13 @@ class Scheduler:
                 factor = factors[self.script_pos[name] % len(factors)]
                 self.script_pos[name] += 1
                 old = self.values[name]
-                new = coupling_advance(kind, old, coupling_step(kind, factor, i["tol"]))
+                new = coupling_advance(kind, old, coupling_step(kind, factor, i["tol"]), i.get("spread", "all"))
                 self.values[name] = new
                 ok = coupling_eps(kind, old, new) < i["tol"]
                 flags.append(ok)
+                for other, eps in coupling_other_norms(kind, old, new).items():
+                    if (eps < i["tol"]) != ok:
+                        self.notes.add("%s-%s-but-%s-would-%s" % (kind, "converged" if ok else "open", other, "not" if ok else "converge"))
                 if not ok:
                     self.notes.add(("decreasing-" if factor < 0 else "increasing-") + ("scalar" if kind in ("float", "int") else "array"))
         return all(flags)
